@@ -122,7 +122,10 @@ def rule_g1(ck, prog, cfg):
         ck.analysed(f)
         st = K.site(f, "emit", 0)
         cs = list(f.calls(conv))
-        wr = list(f.calls("writeData"))
+        # the write: writeData itself, or a library function every path of which writes its own (data, len) that way
+        S = K.summaries(prog)
+        wsites = K.effect_sites(prog, S, f, lambda c_: c_.get("callee") == "writeData", any_linkage=True)
+        wr = [x[0] for x in wsites]
         probs = []
         if len(cs) != 1 or len(wr) != 1:
             ck.violated("C16-G1", st, K.loc(f), "%s: expected one %s and one writeData call" % (name, conv))
@@ -138,7 +141,8 @@ def rule_g1(ck, prog, cfg):
         decl = [d for n in f.nodes.values() if n.k == "DeclStmt" for d in n.get("decls", []) if d["name"] == bufp]
         if decl and (decl[0]["type"].get("n") or decl[0]["type"].get("size") or cap or 0) and cap is not None:
             pass
-        w = C.call_args(wr[0])
+        w = [None, K.arg_through(prog, wsites[0][0], wsites[0][1], wsites[0][2], 1),
+             K.arg_through(prog, wsites[0][0], wsites[0][1], wsites[0][2], 2)]
         lenvar = None
         par = f.parent_of(cs[0])
         for n in f.nodes.values():
@@ -149,7 +153,8 @@ def rule_g1(ck, prog, cfg):
         for n, t in C.stores(f):
             if n.get("op") == "=" and n.child(1).strip_all_casts() is cs[0]:
                 lenvar = t.get("path")
-        if w[1].strip_all_casts().get("path") != bufp or lenvar is None or w[2].strip_all_casts().get("path") != lenvar:
+        if w[1] is None or w[2] is None or w[1].strip_all_casts().get("path") != bufp or lenvar is None or \
+                w[2].strip_all_casts().get("path") != lenvar:
             probs.append("what is written is not (text, length returned by %s)" % conv)
         if probs:
             ck.violated("C16-G1", st, K.loc(f, cs[0]), "%s: %s" % (name, "; ".join(probs)))
